@@ -50,8 +50,12 @@ def gen_history(rng, nops):
     elif len(ops) > 1:
         # requests sized as a fraction of the (large) capacity: just over it, around 1.5x, just under / at / over 2x, well beyond -- whatever growth policy is in
         # force for big buffers, the result must hold what was asked for
+        mult = 1.0
         for _ in range(rng.choice([1, 2, 3]) if first < (1 << 20) else 1):
+            if mult > 3.0:
+                break   # (fractions of the capacity compound: keep the buffer, and the byte-array model, in the tens of megabytes)
             pm = rng.choice([1001, 1010, 1100, 1250, 1400, 1499, 1500, 1501, 1510, 1600, 1750, 1900, 1990, 1999, 2000, 2001, 2100, 2600])
+            mult *= pm / 1000.0
             k = rng.random()
             if k < 0.2:
                 ops.append("PB reset")
@@ -260,7 +264,7 @@ def shard_fn(shard, nshards, seed, tier, exe, nhist):
                     want_ret = -1
                     err = EFBIG   # (which errno is not asserted for this window)
                     sh.count("refused.memset_near_INT_MAX")
-                elif n > (1 << 26) or o2 > (1 << 26):
+                elif n > (1 << 27) or o2 > (1 << 27):
                     raise core.Inconclusive("generator produced a huge-but-allocatable memset: %r -> %r" % (cmd, ln[:200]))
                 else:
                     if len(model) < o2:
